@@ -81,7 +81,7 @@ func c11sDraw(rt *rapid.T) *c11sCase {
 		return append(out, specs[pos:]...)
 	}
 	cs := &c11sCase{}
-	switch rapid.IntRange(0, 7).Draw(rt, "shape") {
+	switch rapid.IntRange(0, 8).Draw(rt, "shape") {
 	case 4:
 		// two changes: the first introduces a package (import and use), the
 		// second has that import on a context or '-' line and rewrites
@@ -152,6 +152,22 @@ func c11sDraw(rt *rapid.T) *c11sCase {
 			cs.File = "package foo\n\n" + c11sImports(at(by, `oldq "example.com/lib/oldp"`), grouped) + uses() + "func sites() {\n\toldq.Do(1)\n}\n"
 			cs.Expected = expect(`oldq "example.com/lib/oldp"`)
 		}
+	case 8:
+		// the '+' side asks for the very import the file has (the '-' side
+		// matches it through a metavariable or under its name), and the
+		// rewritten code does not refer to the package: it was not added,
+		// being there; it must not be deleted either
+		fileName := rapid.SampledFrom([]string{"", "", "zq"}).Draw(rt, "fileName")
+		cs.Shape = "plus-import-is-the-one-the-file-has:file-name=" + fileName
+		plus := "\"example.com/lib/oldp\""
+		spec := plus
+		if fileName != "" {
+			plus = fileName + " " + plus
+			spec = plus
+		}
+		cs.Patch = "@@\nvar pk identifier\nvar x expression\n@@\n-import pk \"example.com/lib/oldp\"\n+import " + plus + "\n\n-legacyDo(x)\n+localDo(x)\n"
+		cs.File = "package foo\n\n" + c11sImports(at(by, spec), grouped) + uses() + "func sites() {\n\tlegacyDo(1)\n}\n"
+		cs.Expected = expect(spec)
 	case 0:
 		// the path of a '+' import is already imported, but under a name the
 		// patch does not mention: that import is a bystander, the '+' import
